@@ -77,6 +77,10 @@ func (x res) chans(skipT, skipF bool) []st {
 	return l
 }
 
+// callSiteHook, when set, is told every callee entered with the cursor possibly still at the reference point, and the
+// kinds it can be entered with there (the N component of the state at the call).
+var callSiteHook func(f int, n TS)
+
 // noContracts makes every callF behave like `call 0` with no answer information (used to classify "by contracts").
 var noContracts bool
 
@@ -95,6 +99,9 @@ func goAna(c *cmd, s st) res {
 	case "call":
 		return res{norm: callSt(c.set, tsAll, s)}
 	case "callF":
+		if callSiteHook != nil && !s.n.isZero() {
+			callSiteHook(c.f, s.n)
+		}
 		if noContracts {
 			return res{norm: callSt(TS{}, tsAll, s)}
 		}
